@@ -206,7 +206,9 @@ SlotOfExpr(e) ==
   IF e.k \in {"arrow", "fnexpr"} THEN Thunk("anon", Eval(e.body))
   ELSE SlotOfValue(Eval(e))
 RECURSIVE ObjLitSlots(_, _)
-ObjLitSlots(es, i) == IF i > Len(es) THEN <<>> ELSE << <<es[i][1], SlotOfExpr(es[i][2])>> >> \o ObjLitSlots(es, i + 1)
+ObjLitSlots(es, i) ==          \* (`_` is the reserved slot-flag entry, not a slot)
+  IF i > Len(es) THEN <<>>
+  ELSE (IF es[i][1] = "_" THEN <<>> ELSE << <<es[i][1], SlotOfExpr(es[i][2])>> >>) \o ObjLitSlots(es, i + 1)
 ExprAsSlotEntries(e) == IF e.k = "objlit" THEN ObjLitSlots(e.es, 1) ELSE AsSlotEntries(Eval(e))
 
 VSlotsOf(attrs) ==                   \* entries contributed by a v-slots attribute (<<>> if none)
